@@ -97,7 +97,8 @@ class Scaling:
 
         rows = jac.row
         cols = jac.col
-        data = np.abs(jac.data)
+        # Conversion required in order not to scale in a narrower dtype
+        data = np.abs(jac.data).astype(float)
 
         prescaled_data = np.ldexp(data, -var_weights[cols])
         max_values = np.zeros((num_cons,))
